@@ -120,19 +120,20 @@ ExpectedCommitTree(b, w, m, S) ==
 Gone(w, m, S) == (S \cap m) \cup UNION {Desc(w, i) : i \in S \cap m}
 WtAfter(w, m, S) == RestrictTo(w, DOMAIN w \ Gone(w, m, S))
 MissAfter(w, m, S) == m \ Gone(w, m, S)
-\* Commit.commit refuses: conflicts; a selected-file commit of a pending merge.  A selection whose result would not be
-\* a tree (an unselected entry would lose its parent directory or collide with a selected one), would record a selected
-\* entry at another path than the working tree's (its moved parent directory is not selected)
-\* (a specific file named below something that is not a directory in the working tree cannot be looked up)
+(* When the specification's Commit does not produce a revision (the state is then unchanged):
+     Refused     Commit.commit's own preconditions: conflicts; a selected-file commit of a pending merge; a specific file
+                 named below something that is not a directory in the working tree (it cannot be looked up);
+     ~Feasible   the selection does not denote a commit that can satisfy C01: the result would not be a tree (an unselected
+                 entry would lose its parent directory or collide with a selected one), a changed selected entry would be
+                 recorded at another path than the working tree's (its moved parent directory is not selected), or an
+                 unselected pending change would silently disappear (an added entry below a missing directory that is
+                 committed as deleted). *)
 BelowNonDir(c) == \E p \in c.sel.paths : \E i \in DOMAIN c.w \ c.m :
                       c.w[i].kind # "directory" /\ PathOf(c.w, i) # p /\ PrefixOf(PathOf(c.w, i), p)
 Refused(c) == c.conflicts \/ (c.merge /\ ~(c.sel.all /\ c.excl = {})) \/ BelowNonDir(c)
-\* ... or would silently drop an unselected pending change (an added entry below a missing directory that is committed as
-\* deleted) cannot be committed without breaking C01, so the specification refuses it.
 FeasibleS(b, w, m, S) ==
     \E exp \in {ExpectedCommitTree(b, w, m, S)} : \E w2 \in {WtAfter(w, m, S)} : \E m2 \in {MissAfter(w, m, S)} :
         /\ ValidTree(exp)
-        \* "path substituted": a changed selected entry is recorded at its working path (no unselected moved parent)
         /\ \A i \in S \cap DOMAIN exp : Pending(b, w, m, i) => PathOf(exp, i) = PathOf(w, i)
         /\ \A i \in AllIds(b, w) \ S : Pending(b, w, m, i) => Pending(exp, w2, m2, i)
 Feasible(c) == FeasibleS(c.b, c.w, c.m, Selected(c.b, c.w, c.m, c.sel, c.excl))
